@@ -1213,6 +1213,17 @@ def _sizeb(g, scale):
                 g.emit("size %s" % z); g.emit("wf %s" % z)
                 g.emit("add %s %d" % (z, 5 * CH + 1)); g.emit("size %s" % z)
             g.count("sizeb:inplace-and-to-%d" % target)
+    # bitmaps built from dense words whose LAST chunk is partial (fewer than 1024 words) and holds few / ~4 per word / many values
+    for words in ("3fffffff*100", "ffffffffffffffff*2048.ff*300", "1*50", "1f*820", "ffff*256", "ffffffffffffffff*1024.ffffffffffffffff*65",
+                  "7*1000", "ffffffffffffffff*63.1", "0*1024.f*400"):
+        for copy in (0, 1):
+            y = g.fresh("fd")
+            g.emit("fromdense %s %d %s" % (y, copy, words))
+            g.emit("size %s" % y); g.emit("wf %s" % y)
+        y = g.fresh("fd")
+        g.emit("frombitset %s %s" % (y, words))
+        g.emit("size %s" % y); g.emit("wf %s" % y)
+        g.count("sizeb:fromdense-partial-last-chunk")
     for n in (2046, 2047, 2048, 2049, 2050, 2053, 2055, 2056, 2057):
         a = g.fresh()
         g.emit("new %s" % a)
